@@ -20,7 +20,8 @@ func TestVerif(t *testing.T) { hutil.Quiet(); sched.Main(t) }
 // ---------------------------------------------------------------------------
 // C19 (H1): every operation sequence on a real Counter.
 //
-// alphabet  Incr(k) for k in 4 keys | Latch | Free ; capacity in {0,1,2,3}
+// alphabet  Incr(k) for k in 4 keys | Latch | Free ; capacity in {0,1,2,3}; plus capacities {1,2,127,128,254,255}
+//           (the type's boundaries) with capacity+60 distinct keys and one hot key
 // bound     depth (quick 7, thorough 9), canonical-state de-duplication (frequency list dumped
 //           through the private pointers)
 // oracle    tracked keys <= capacity; each tracked key's count = accesses since admission; the key
@@ -214,6 +215,37 @@ func c19counter(env sched.Env) *sched.Report {
 		}
 		rep.States += int64(len(seen))
 		rep.Notes = append(rep.Notes, fmt.Sprintf("capacity %d: %d canonical states", capn, len(seen)))
+	}
+	// the capacity is a uint8: every capacity at the type's boundaries with more distinct keys than it holds
+	for _, capn := range []uint8{1, 2, 127, 128, 254, 255} {
+		rep.Execs++
+		c := NewCounter(capn, nil)
+		bad := ""
+		for i := 0; i < int(capn)+60 && bad == ""; i++ {
+			c.Incr(fmt.Sprintf("key%d", i))
+			if i%3 == 0 {
+				c.Incr("key0") // one key stays hotter than the rest and must never be the one evicted
+			}
+			if len(c.items) > int(capn) {
+				bad = fmt.Sprintf("tracks %d keys after %d distinct keys", len(c.items), i+1)
+			}
+		}
+		if bad == "" {
+			l := c.Latch()
+			if len(l) > int(capn) {
+				bad = fmt.Sprintf("Latch returned %d keys", len(l))
+			} else if capn > 1 && l["key0"] == 0 {
+				bad = "the hottest key was evicted"
+			}
+		}
+		if bad != "" {
+			full := "tracks-more-than-capacity-or-evicts-hot-key / capacity at the uint8 boundary"
+			rep.Outcomes["violation: "+full]++
+			if !sigs[full] {
+				sigs[full] = true
+				rep.Violations = append(rep.Violations, sched.CustomViolation("C19/counter", full, fmt.Sprintf("capacity %d: %s", capn, bad), ctrCase{Cap: capn}))
+			}
+		}
 	}
 	rep.Distinct = rep.States
 	rep.CustomSamples = []interface{}{"cap=2: I0 I0 I1 I2 L I3 F", "cap=1: I0 I1 I1 L"}
